@@ -77,7 +77,10 @@ def run(F, run, tier):
         # such a branch is undecided, with concrete ones it is not)
         limit_cases = [(sp.Rational(1, 3), sp.Integer(2)), (sp.Integer(2), sp.Rational(1, 3)), (sp.Rational(-3, 2), sp.Rational(-3, 2)), (sp.Integer(-1), sp.Rational(5, 2))]
         n_conc = 0
-        for (la_, lb_) in limit_cases if kind == "real" else [(sp.Rational(1, 3) + sp.I, sp.Integer(2)), (sp.Integer(2), sp.Rational(1, 3) + sp.I)]:
+        # complex limits: a generic pair, and pairs that share one part (a vertical and a horizontal path: a comparison of the limits by one component takes them for equal)
+        complex_cases = [(sp.Rational(1, 3) + sp.I, sp.Integer(2)), (sp.Integer(2), sp.Rational(1, 3) + sp.I), (sp.Rational(1, 2) - sp.I, sp.Rational(1, 2) + sp.I * sp.Rational(3, 2)),
+                         (sp.Rational(-1, 4) + 2 * sp.I, sp.Rational(3, 4) + 2 * sp.I)]
+        for (la_, lb_) in limit_cases if kind == "real" else complex_cases:
             cinst = "%s,limits=(%s,%s)" % (inst, la_, lb_)
             try:
                 vv = PI.call(F, M["integrate"], [P(), la_, lb_])[0]
